@@ -238,31 +238,82 @@ def handleSrc (nargs : Option Nat) (exs : List Ex) : String :=
   the last nargs tokens are A:<i> arguments the section is applied to -/
 
 abbrev EnvS := List (String × TOp × Precedence)
+/-- interpreter state of `srcs`: the operator variables, and what the probing operator functions
+have seen (rendered values of the chains they evaluated) -/
+abbrev StS := EnvS × List String
 
 inductive Eff where
   | assign (x y : String)
   | setp (x : String) (p : Prec)
   | swapv (x y : String)
   | swapp (x y : String)
+  /-- `x::precedence += r` / `-= r` / `.= (\p -> p + r)` -/
+  | opadd (x : String) (r : Int)
+  /-- `x::precedence *= r` -/
+  | opmul (x : String) (r : Int)
+  /-- `try x::precedence op= v catch _ -> null` with an op-assignment that cannot complete
+  (division by zero, wrong operand kind, a throwing operator function, a non-number result) -/
+  | opfail (x : String)
+  /-- `x::precedence pb= r` where `pb := \p, d -> (lgv(100 y 101 z 102); p + d)`: the operator
+  function evaluates a chain over the operators of the outer chain while the op-assignment runs -/
+  | probe (x : String) (r : Int) (y z : String)
 
 def EnvS.get (env : EnvS) (x : String) : Option (TOp × Precedence) := List.lookup x env
 def EnvS.set (env : EnvS) (x : String) (v : TOp × Precedence) : EnvS :=
   env.map fun e => if e.1 == x then (x, v) else e
 
-/-- the effect of an assignment statement; an unknown variable raises -/
-def Eff.apply (env : EnvS) : Eff → Option EnvS
-  | .assign x y => match env.get x, env.get y with
-    | some _, some vy => some (env.set x vy)
+def _root_.Noulith.Chain.Prec.addI : Prec → Int → Prec
+  | .nan, _ => .nan
+  | .fin a, r => .fin (a + r)
+def _root_.Noulith.Chain.Prec.mulI : Prec → Int → Prec
+  | .nan, _ => .nan
+  | .fin a, r => .fin (a * r)
+
+/-- the chain `100 y 101 z 102` in environment `env`, rendered -/
+def innerChain (env : EnvS) (y z : String) : Option String :=
+  match env.get y, env.get z with
+  | some (fy, py), some (fz, pz) =>
+    match evalChain runT tryChainT (leafVal 100) [(fy, py, leafVal 101), (fz, pz, leafVal 102)] with
+    | .ok d => some d.text
+    | _ => none
+  | _, _ => none
+
+/-- an op-assignment on `x::precedence` through the Impl transcription `precedenceOpAssign` -/
+def opAssign (st : StS) (x : String) (combine : Prec → Precedence → Out (Option Prec))
+    (seen : Precedence → Option String) : Option StS :=
+  match st.1.get x with
+  | none => none
+  | some (f, pr) =>
+    let r := precedenceOpAssign pr combine
+    -- what a chain evaluated by the operator function sees: the slot after the drop step
+    let st' : StS := (st.1.set x (f, r.2), match seen (setPrecedence pr none) with
+      | some t => st.2 ++ [t] | none => st.2)
+    some st'
+
+/-- the effect of an operand's statement on the state; `none` = the operand raises -/
+def Eff.apply (st : StS) : Eff → Option StS
+  | .assign x y => match st.1.get x, st.1.get y with
+    | some _, some vy => some (st.1.set x vy, st.2)
     | _, _ => none
-  | .setp x p => match env.get x with
-    | some (f, pr) => some (env.set x (f, ⟨p, pr.a⟩))     -- only the f64 changes, not the Assoc
+  | .setp x p => match st.1.get x with
+    | some (f, pr) => some (st.1.set x (f, setPrecedence pr (some p)), st.2)
     | none => none
-  | .swapv x y => match env.get x, env.get y with
-    | some vx, some vy => some ((env.set x vy).set y vx)
+  | .swapv x y => match st.1.get x, st.1.get y with
+    | some vx, some vy => some ((st.1.set x vy).set y vx, st.2)
     | _, _ => none
-  | .swapp x y => match env.get x, env.get y with
-    | some (fx, px), some (fy, py) => some ((env.set x (fx, ⟨py.p, px.a⟩)).set y (fy, ⟨px.p, py.a⟩))
+  | .swapp x y => match st.1.get x, st.1.get y with
+    | some (fx, px), some (fy, py) =>
+      some ((st.1.set x (fx, ⟨py.p, px.a⟩)).set y (fy, ⟨px.p, py.a⟩), st.2)
     | _, _ => none
+  | .opadd x r => opAssign st x (fun old _ => .ok (some (old.addI r))) (fun _ => none)
+  | .opmul x r => opAssign st x (fun old _ => .ok (some (old.mulI r))) (fun _ => none)
+  | .opfail x => opAssign st x (fun _ _ => .throw) (fun _ => none)   -- caught by the `try`
+  | .probe x r y z =>
+    match st.1.get x with
+    | none => none
+    | some (f, _) =>
+      opAssign st x (fun old _ => .ok (some (old.addI r)))
+        (fun during => innerChain (st.1.set x (f, during)) y z)
 
 inductive ExS where
   | opd (i : Nat) (eff : Option Eff)
@@ -278,20 +329,20 @@ def ExS.name : ExS → String
   | .bopr k _ => s!"o{k}"
   | .arg i => s!"e{i}"
 
-def langS : LangS EnvS ExS TOp DVal where
+def langS : LangS StS ExS TOp DVal where
   evaluate
-    | .opd i none, env => (.ok (leafVal i), env)
-    | .opd i (some eff), env => match eff.apply env with
-      | some env' => (.ok (leafVal i), env')
-      | none => (.throw, env)
-    | .und, env => (.throw, env)
-    | .vopr x, env => match env.get x with
-      | some (f, p) => (.ok (.fn f p), env)
-      | none => (.throw, env)
-    | .bopr _ x, env => match env.get x with
-      | some (f, p) => (.ok (.fn f p), env)
-      | none => (.throw, env)
-    | .arg i, env => (.ok (leafVal i), env)
+    | .opd i none, st => (.ok (leafVal i), st)
+    | .opd i (some eff), st => match eff.apply st with
+      | some st' => (.ok (leafVal i), st')
+      | none => (.throw, st)
+    | .und, st => (.throw, st)
+    | .vopr x, st => match st.1.get x with
+      | some (f, p) => (.ok (.fn f p), st)
+      | none => (.throw, st)
+    | .bopr _ x, st => match st.1.get x with
+      | some (f, p) => (.ok (.fn f p), st)
+      | none => (.throw, st)
+    | .arg i, st => (.ok (leafVal i), st)
   isUnderscore | .und => true | _ => false
   asFunc | .fn f p => some (f, p) | .sec _ _ => none | .v _ _ => none
   mkSection := .sec
@@ -302,6 +353,12 @@ def langS : LangS EnvS ExS TOp DVal where
 def parsePrecOnly (p : String) : Option Prec :=
   if p == "n" then some .nan else p.toInt?.map .fin
 
+/-- `P3` = 3, `M3` = -3 -/
+def parseSInt (s : String) : Option Int :=
+  if s.startsWith "P" then (s.drop 1).toString.toNat?.map Int.ofNat
+  else if s.startsWith "M" then (s.drop 1).toString.toNat?.map (fun n => - Int.ofNat n)
+  else none
+
 def parseEff (s : String) : Option Eff :=
   match s.splitOn "-" with
   | ["a", x, y] => some (.assign x y)
@@ -309,6 +366,10 @@ def parseEff (s : String) : Option Eff :=
   | ["p", x, "", r] => (parsePrecOnly ("-" ++ r)).map (.setp x)
   | ["w", x, y] => some (.swapv x y)
   | ["q", x, y] => some (.swapp x y)
+  | ["oa", x, r] => (parseSInt r).map (.opadd x)
+  | ["om", x, r] => (parseSInt r).map (.opmul x)
+  | ["of", x] => some (.opfail x)
+  | ["ob", x, r, y, z] => (parseSInt r).map (fun r => .probe x r y z)
   | _ => none
 
 def parseExS (pos : Nat) (s : String) : Option ExS :=
@@ -345,45 +406,80 @@ def parseEnvS : Nat → List String → Option (EnvS × List String)
 
 def traceNamesS (l : List ExS) : List String := (l.map ExS.name).filter (· ≠ "")
 
-/-- Spec for `srcs`: walk the chain left to right threading the environment; the operator of a
-position is what its variable holds THERE; then group the resolved chain by climbing -/
-def specResolve : List (ExS × ExS) → EnvS → Option (List (Op TOp × Option Nat) × EnvS)
-  | [], env => some ([], env)
-  | (oper, opd) :: rest, env =>
+def seenSuffix (seen : List String) : String :=
+  if seen.isEmpty then "" else " seen=" ++ joinWith ";" seen
+
+/-! Spec for `srcs`, written independently of the Impl transcription: the only things that change
+the precedence an operator carries are COMPLETED assignments; a failed op-assignment changes
+nothing, and while an op-assignment's operator function runs nothing has been assigned yet. -/
+
+def specEff (st : StS) : Eff → Option StS
+  | .assign x y => match st.1.get x, st.1.get y with
+    | some _, some vy => some (st.1.set x vy, st.2)
+    | _, _ => none
+  | .setp x p => (st.1.get x).map fun (f, pr) => (st.1.set x (f, ⟨p, pr.a⟩), st.2)
+  | .swapv x y => match st.1.get x, st.1.get y with
+    | some vx, some vy => some ((st.1.set x vy).set y vx, st.2)
+    | _, _ => none
+  | .swapp x y => match st.1.get x, st.1.get y with
+    | some (fx, px), some (fy, py) =>
+      some ((st.1.set x (fx, ⟨py.p, px.a⟩)).set y (fy, ⟨px.p, py.a⟩), st.2)
+    | _, _ => none
+  | .opadd x r => (st.1.get x).map fun (f, pr) => (st.1.set x (f, ⟨pr.p.addI r, pr.a⟩), st.2)
+  | .opmul x r => (st.1.get x).map fun (f, pr) => (st.1.set x (f, ⟨pr.p.mulI r, pr.a⟩), st.2)
+  | .opfail x => (st.1.get x).map fun _ => st
+  | .probe x r y z => (st.1.get x).map fun (f, pr) =>
+      (st.1.set x (f, ⟨pr.p.addI r, pr.a⟩),
+        match innerChainSpec st.1 y z with | some t => st.2 ++ [t] | none => st.2)
+where
+  /-- the inner chain is evaluated in the environment as it is BEFORE the assignment -/
+  innerChainSpec (env : EnvS) (y z : String) : Option String :=
+    match env.get y, env.get z with
+    | some (fy, py), some (fz, pz) =>
+      let c : ChainOf TOp Nat := ⟨100, [(⟨fy, py⟩, 101), (⟨fz, pz⟩, 102)]⟩
+      match semM runT tryChainT leafVal (climbTree tryChainT c) with
+      | .ok d => some d.text
+      | _ => none
+    | _, _ => none
+
+/-- walk the chain left to right threading the state; the operator of a position is what its
+variable holds THERE; then group the resolved chain by climbing -/
+def specResolve : List (ExS × ExS) → StS → Option (List (Op TOp × Option Nat) × StS)
+  | [], st => some ([], st)
+  | (oper, opd) :: rest, st =>
     let x := match oper with | .vopr x => x | .bopr _ x => x | _ => ""
-    match env.get x with
+    match st.1.get x with
     | none => none
     | some (f, p) =>
       match opd with
-      | .und => (specResolve rest env).map fun r => ((⟨f, p⟩, none) :: r.1, r.2)
+      | .und => (specResolve rest st).map fun r => ((⟨f, p⟩, none) :: r.1, r.2)
       | .opd i eff =>
-        let env' := match eff with | none => some env | some e => e.apply env
-        match env' with
+        let st' := match eff with | none => some st | some e => specEff st e
+        match st' with
         | none => none
-        | some env' => (specResolve rest env').map fun r => ((⟨f, p⟩, some i) :: r.1, r.2)
+        | some st' => (specResolve rest st').map fun r => ((⟨f, p⟩, some i) :: r.1, r.2)
       | _ => none
 
-def specSrcS (env : EnvS) (op1 : ExS) (ops : List (ExS × ExS)) (args : Option (List ExS)) : String :=
-  let first : Option (Option Nat × EnvS) := match op1 with
-    | .und => some (none, env)
-    | .opd i eff => (match eff with | none => some env | some e => e.apply env).map fun e => (some i, e)
+def specSrcS (st0 : StS) (op1 : ExS) (ops : List (ExS × ExS)) (args : Option (List ExS)) : String :=
+  let first : Option (Option Nat × StS) := match op1 with
+    | .und => some (none, st0)
+    | .opd i eff => (match eff with | none => some st0 | some e => specEff st0 e).map fun e => (some i, e)
     | _ => none
   match first with
   | none => "throw"
-  | some (f0, env1) =>
-    match specResolve ops env1 with
+  | some (f0, st1) =>
+    match specResolve ops st1 with
     | none => "throw"
-    | some (res, _) =>
+    | some (res, stEnd) =>
       let order := ((if langS.isUnderscore op1 then [] else [op1]) ++
         ops.flatMap (fun p => if langS.isUnderscore p.2 then [p.1] else [p.1, p.2])) ++ args.getD []
       let holes := (if f0.isNone then 1 else 0) + (res.filter (·.2.isNone)).length
       let argNats := (args.getD []).map fun e => match e with | .arg i => i | _ => 0
       if holes > 0 && args.isNone then
-        "ok <func> evals=" ++ joinWith "," (traceNamesS order) ++ " apps="
+        "ok <func> evals=" ++ joinWith "," (traceNamesS order) ++ " apps=" ++ seenSuffix stEnd.2
       else if holes == 0 && args.isSome then "unsupported"
       else if argNats.length ≠ holes then "throw"
       else
-        -- fill the holes left to right
         let (firstLeaf, restArgs) := match f0 with
           | some i => (i, argNats)
           | none => (argNats.headD 0, argNats.drop 1)
@@ -392,9 +488,11 @@ def specSrcS (env : EnvS) (op1 : ExS) (ops : List (ExS × ExS)) (args : Option (
           | some i => (acc.1 ++ [(r.1, i)], acc.2)
           | none => (acc.1 ++ [(r.1, acc.2.headD 0)], acc.2.drop 1)) ([], restArgs)).1
         let c : ChainOf TOp Nat := ⟨firstLeaf, filled⟩
-        renderVal (semM runT tryChainT leafVal (climbTree tryChainT c)) (some (traceNamesS order))
+        let out := semM runT tryChainT leafVal (climbTree tryChainT c)
+        renderVal out (some (traceNamesS order)) ++
+          (match out with | .ok _ => seenSuffix stEnd.2 | _ => "")
 
-def evalArgsS : List ExS → SM (EnvS × List ExS) (List DVal)
+def evalArgsS : List ExS → SM (StS × List ExS) (List DVal)
   | [] => SM.pure []
   | a :: rest => SM.bind (langS.traced.evaluate a) fun v =>
       SM.bind (evalArgsS rest) fun vs => SM.pure (v :: vs)
@@ -409,7 +507,7 @@ def handleSrcS (nargs : Option Nat) (env : EnvS) (exs : List ExS) : String :=
     match pairUpS restToks with
     | none => "bad-op"
     | some ops =>
-      let m : SM (EnvS × List ExS) DVal :=
+      let m : SM (StS × List ExS) DVal :=
         match nargs with
         | none => chainArmS langS.traced op1 ops
         | some _ =>
@@ -418,9 +516,10 @@ def handleSrcS (nargs : Option Nat) (env : EnvS) (exs : List ExS) : String :=
           match callee with
           | .sec seed sops => SM.lift (runChainSection lang seed sops args)
           | _ => SM.fail
-      let r := m (env, [])
-      let impl := renderVal r.1 (some (traceNamesS r.2.2))
-      impl ++ "\t" ++ specSrcS env op1 ops (nargs.map fun _ => argToks) ++ "\t-"
+      let r := m ((env, []), [])
+      let impl := renderVal r.1 (some (traceNamesS r.2.2)) ++
+        (match r.1 with | .ok _ => seenSuffix r.2.1.2 | _ => "")
+      impl ++ "\t" ++ specSrcS (env, []) op1 ops (nargs.map fun _ => argToks) ++ "\t-"
 
 /-! ### real builtins -/
 structure ROp where
